@@ -403,6 +403,7 @@ func (s *Server) cmdSearchArgs(
 	case "get":
 		if lfs.clip {
 			err = errInvalidArgument("cannot clip with get")
+			return
 		}
 		var key, id string
 		if vs, key, ok = tokenval(vs); !ok || key == "" {
